@@ -374,13 +374,17 @@ func (f *jsonFam) valid(r *rng) ([]byte, string) {
 
 // ---------------------------------------------------------------- oracle
 
-func resolvePath(doc *jnode, path string) *jnode {
+func resolvePath(doc *jnode, path string, first bool) *jnode {
 	cur := doc
 	for _, k := range strings.Split(path, ".") {
 		if cur == nil || cur.kind != jObj {
 			return nil
 		}
-		cur = cur.get(k)
+		if first {
+			cur = cur.getFirst(k)
+		} else {
+			cur = cur.get(k)
+		}
 	}
 	return cur
 }
@@ -547,21 +551,28 @@ func (f *jsonFam) feed(x *exec, line []byte) {
 			}
 			sort.Strings(paths)
 			for _, p := range paths {
-				n := resolvePath(inTree, p)
-				if n == nil || n.kind != jStr {
-					continue
-				}
-				raw := string(line[n.start+1 : n.end-1])
-				spec := newCutSpec(n.str, raw, c.limits[p])
-				named[n] = spec
-				if spec.over {
-					cl := valueClass(raw)
-					if cutClass == "none" || cl == "escaped" || (cl == "multibyte" && cutClass == "ascii") {
-						cutClass = cl
+				// with duplicate keys (only then do the two differ) the member a path
+				// names is not documented: both count for the classification
+				for _, first := range []bool{false, true} {
+					n := resolvePath(inTree, p, first)
+					if n == nil || n.kind != jStr {
+						continue
 					}
-				}
-				if !spec.within {
-					mustCut = true
+					if _, seen := named[n]; seen {
+						continue
+					}
+					raw := string(line[n.start+1 : n.end-1])
+					spec := newCutSpec(n.str, raw, c.limits[p])
+					named[n] = spec
+					if spec.over {
+						cl := valueClass(raw)
+						if cutClass == "none" || cl == "escaped" || (cl == "multibyte" && cutClass == "ascii") {
+							cutClass = cl
+						}
+					}
+					if !spec.within && !dup {
+						mustCut = true
+					}
 				}
 			}
 		}
